@@ -22,7 +22,7 @@ REQUIRED_THEOREMS = ["C18_first_stop", "C18_never_self", "C18_needs_history", "C
                      "C18_unknown_criterion", "C18_deprecated_eq", "C18_degenerate_no_stop", "C18_tolerance_infinite",
                      "C18_first_stop_multi", "C18_stop_request_stands", "C18_stop_request_stands_dispatch",
                      "C18_fit_keeps_monitoring", "C18_clear_history_monitors", "C18_gen_deviation_eq_model",
-                     "C18_gen_on_epoch_end_eq_model"]
+                     "C18_gen_on_epoch_end_eq_model", "C18_gen_deviation_is_documented"]
 EXTRA_TRUSTED = [
     "C18: the monitored values are scripted functions of the epoch; float64 sub/div/abs/sqrt and `<` of Lean's Float are IEEE, "
     "as are Python's and numpy's, so decisions are compared exactly",
